@@ -163,7 +163,9 @@ Cycle ==
            /\ cycles' = Append(cycles, t)
     /\ UNCHANGED <<prog, done>>
 
-Prediction == [id |-> prog.id, writes |-> writes, errs |-> errs, cycles |-> cycles]
+Prediction == IF prog.id = 0   \* enumerated family: the program itself is the key
+              THEN [prog |-> prog, writes |-> writes, errs |-> errs, cycles |-> cycles]
+              ELSE [id |-> prog.id, writes |-> writes, errs |-> errs, cycles |-> cycles]
 
 Finish ==
     /\ ~done
